@@ -41,6 +41,10 @@ class LiquidationMonitor:
     def match_begin(self, c, kind, exchange, symbol, candle):
         self.chunk_len[symbol] = 1 if kind == 'step' else len(candle)
 
+    def match_end(self, c, kind, exchange, symbol, candle):
+        self.matched = getattr(self, 'matched', {})
+        self.matched[symbol] = float(candle[0]) if kind == 'step' else float(candle[0, 0])
+
     def own_range(self, symbol, ts):
         i = int(round((ts - self.t0[symbol]) / 60_000))
         n = self.chunk_len.get(symbol, 1)
@@ -61,6 +65,10 @@ class LiquidationMonitor:
         lo, hi, i = rng
         reg = c.scratch['registry']
         ex = store.exchanges.storage[exchange]
+        # "still open AFTER the resting orders of the minute (chunk) have been matched"
+        if float(p.qty) != 0 and self.isolated and getattr(self, 'matched', {}).get(symbol) != float(candle[0]):
+            self.v(c, 'check-before-matching', f"C09|liquidation-checked-before-the-minutes-orders-were-matched|fast={int(self.spec['fast'])}",
+                   {'candle_ts': float(candle[0]), 'last_matched': getattr(self, 'matched', {}).get(symbol)})
         q0 = float(p.qty)
         e0 = None if p.entry_price is None else float(p.entry_price)
         is_open = q0 != 0
@@ -321,6 +329,27 @@ class RoutingMonitor:
                 used[hit] = True
             if orders:
                 c.count('c10_exit_sets_checked')
+            # every row of the latest declaration was turned into an order: it is still active, or it has been
+            # executed since (rows are matched by quantity and price; market-routed rows by quantity)
+            if rows and getattr(strat, '_decl_at', {}).get(kind) is not None and not c.scratch.get('last_rejection_seq'):
+                since = strat._decl_at[kind]
+                cands = [r for r in reg.by_symbol.get(sym, []) if getattr(r.order, 'submitted_via', None) == via
+                         and r.order.status in (ACTIVE, EXECUTED) and r.seq >= since]
+                taken = set()
+                for (q, p) in rows:
+                    hit = None
+                    for r in cands:
+                        if r.id in taken:
+                            continue
+                        if abs(r.qty) == abs(q) and (r.price == p or r.type == 'MARKET'):
+                            hit = r
+                            break
+                    if hit is None:
+                        self.v(c, 'declared-row-without-order', f'C10|declared-{kind}-row-has-no-order|rows={min(len(rows), 3)}',
+                               {'row': [q, p], 'declared': rows, 'orders': [[r.type, r.qty, r.price, r.order.status] for r in cands][:6]})
+                        break
+                    taken.add(hit.id)
+                c.count('c10_declarations_checked')
 
 
 # ===================================================================================== C16
